@@ -218,6 +218,8 @@ pub fn gen_rcv(r: &mut Rng, thorough: bool, cx: &mut Ctx) {
             let nprefix = toks.len();
             packet_tokens(link, &p1, &mut toks); packet_tokens(link, &p2, &mut toks);
             let mut meta = vec![count_tokens(link, &toks[nprefix..])]; show_packet(&p1, &mut meta); show_packet(&p2, &mut meta);
+            // now and then the very last thing on the line is non-zero noise (a glitch after the final frame): the last poll must still return
+            if link != 0 && r.chance(1, 5) { for _ in 0..r.range(1, 3) { toks.push(r.range(1, 255)); } }
             emit_rcv(cx, link, &meta, &toks);
         }
     }
@@ -335,7 +337,7 @@ pub fn gen_lnk(r: &mut Rng, thorough: bool, cx: &mut Ctx) {
             let long = k % 12 == 4;                        // very long idle periods (hundreds of polls) between bytes / frames of small packets
             let np = if long { r.range(1, 2) } else { r.range(1, 8) };
             // one long gap (260, 1200, thorough: 70000 'no data yet' answers in a row) or a moderate gap (70) before every byte / frame: retry budgets, idle counters
-            let big = match (k / 12) % 4 { 0 => 260, 1 => 1200, 2 => 70, _ => if thorough { 70000 } else { 1200 } };
+            let big = match (k / 12) % 4 { 0 => 260, 1 => 1200, 2 => 70, _ => if thorough && k / 12 == 3 { 70000 } else { 1200 } };     // one 70000-gap case per link (the model's poll loop is quadratic in it)
             let gaps: Vec<u64> = if long { if big == 70 { vec![70] } else if link == 1 { let mut g = vec![0u64; 23]; g[11] = big; g } else { vec![0, big, 0, 0, 0, 0] } } else { match k % 6 { 0 => vec![], 1 => vec![1], 2 => vec![0, 0, 2], 3 => (0..r.range(1, 7)).map(|_| r.below(3)).collect(), 4 => vec![0, 0, 0, 0, 0, 0, 0, 5], _ => (0..r.range(1, 12)).map(|_| if r.chance(1, 4) { r.range(1, 4) } else { 0 }).collect() } };
             let mut l = vec![link, gaps.len() as u64]; l.extend(&gaps); l.push(np);
             let mut prevp: Option<Packet> = None;
